@@ -1,2 +1,3 @@
 import BppProofs.Lemmas.Range
+import BppProofs.Lemmas.ScalarReal
 import BppProofs.Props.C20
